@@ -12,7 +12,7 @@ import os
 from vcheck import core, svcgen, svcreal
 
 FIXED = {'suggestCatchesAll': True, 'shortDeliveryOk': True, 'deleteCascadesOps': True,
-         'metadataAtomic': True, 'esFailureFinishesOp': True, 'createKeepsInfeasible': True, 'esAnswerFinishesOp': True, 'resumesAbandonedOp': True}
+         'metadataAtomic': True, 'esFailureFinishesOp': True, 'createKeepsInfeasible': True, 'esAnswerFinishesOp': True, 'resumesAbandonedOp': True, 'esResumesActive': True}
 
 W_CREATE = {'op': 'createStudy', 'owner': 'o', 'display': 's', 'state': 'ACTIVE'}
 SUGG = lambda n: {'kind': 'ok', 'sugg': [{'params': i + 1, 'md': []} for i in range(n)], 'delta': []}
@@ -80,6 +80,23 @@ def probe_resume(be):
   return bool(r.get('k') == 'op' and r['v']['done'] and r['v']['num'] == 1 and len(r.get('handed', [])) == 1), r
 
 
+KEY_ES_ABANDONED = 'crash-inside-earlystop-check-leaves-record-active'
+
+
+def probe_es_resume(be):
+  """Is an ACTIVE early-stopping record found by CheckTrialEarlyStoppingState (what a server that died inside the call
+  leaves behind) recomputed, or does it answer the check?  c06_abandoned_earlystop_record_recomputed / _wedge."""
+  from vizier._src.service import vizier_oss_pb2
+  rr = svcreal.make_runner(be)
+  rr.step(W_CREATE)
+  rr.step({'op': 'createTrial', 'trial': {'state': 'REQUESTED', 'params': 1, 'meas': [], 'final': None, 'md': []}})
+  rr.step({'op': 'suggest', 'client': 'w', 'count': 1, 'alg': SUGG(0)})
+  rr.ds.create_early_stopping_operation(vizier_oss_pb2.EarlyStoppingOperation(
+      name='owners/o/operations/earlystopping/s/1', status=vizier_oss_pb2.EarlyStoppingOperation.Status.ACTIVE, should_stop=False))
+  r = rr.step({'op': 'checkEarlyStop', 'id': 1, 'es': {'kind': 'ok', 'decisions': [[1, True]], 'delta': []}})
+  return bool(r.get('k') == 'es' and r.get('v') is True), r
+
+
 def identify_flags(c, backends, report=()):
   """Returns {backend: cfg}.  A flag found in its defective variant is a property failure on the
   real code when its name is in `report`."""
@@ -103,6 +120,12 @@ def identify_flags(c, backends, report=()):
     if not good and 'resumesAbandonedOp' in report:
       c.prop_fail(KEY_ABANDONED, 'an unfinished suggestion operation of worker w (what a server that died inside SuggestTrials leaves behind) is handed back unchanged by every later SuggestTrials of that worker: %s (backend %s)' % (json.dumps(r)[:200], be),
                   {'backend': be, 'history': 'CreateStudy; datastore.create_suggestion_operation(w/1, done=False); SuggestTrials(w, 1)', 'response': r})
+    good2, r2 = probe_es_resume(be)
+    c.traces += 1
+    cfg['esResumesActive'] = good2
+    if not good2 and 'esResumesActive' in report:
+      c.prop_fail(KEY_ES_ABANDONED, 'an ACTIVE early-stopping record of trial 1 (what a server that died inside CheckTrialEarlyStoppingState leaves behind) answers every later check of that trial without reaching the algorithm: %s (backend %s)' % (json.dumps(r2)[:200], be),
+                  {'backend': be, 'history': 'CreateStudy; CreateTrial; SuggestTrials(w, 1); datastore.create_early_stopping_operation(trial 1, ACTIVE); CheckTrialEarlyStoppingState(trial 1), algorithm says stop', 'response': r2})
     cfgs[be] = cfg
     c.flags[be] = dict(cfg)
   return cfgs
